@@ -161,14 +161,6 @@ func (ex *Exec) call(f *Frame, st *State, x *ssa.Call, b *ssa.BasicBlock, i int,
 					ec.vars[pn] = pb
 				}
 			}
-			t, err := ec.formula(c.Src)
-			if err != nil && c.Optional {
-				continue
-			}
-			if err != nil {
-				ex.aborted = fmt.Sprintf("contract error (%s): %v", c.Line, err)
-				return false
-			}
 			lbl := c.Label
 			if lbl == "" {
 				lbl = fmt.Sprint(k + 1)
@@ -180,6 +172,22 @@ func (ex *Exec) call(f *Frame, st *State, x *ssa.Call, b *ssa.BasicBlock, i int,
 				} else {
 					ordName = fmt.Sprint(ord)
 				}
+			}
+			t, err := ec.formula(c.Src)
+			if err != nil && c.Optional {
+				// as for optional ensures: "A ==> B" with B's values not (yet) existing at
+				// this call requires A to be false here
+				if parts := splitOp(c.Src, "==>"); len(parts) == 2 && strings.Contains(err.Error(), "unknown identifier") {
+					if a, err2 := ec.formula(parts[0]); err2 == nil {
+						ex.oblige(f, st, "assert", fmt.Sprintf("%s#assert:%s#%s#%s", ex.name, c.pat, ordName, lbl), mkNot(a), x.Pos(),
+							c.Src+"   [the consequent's values do not exist at this call: its antecedent must be false here]")
+					}
+				}
+				continue
+			}
+			if err != nil {
+				ex.aborted = fmt.Sprintf("contract error (%s): %v", c.Line, err)
+				return false
 			}
 			ex.oblige(f, st, "assert", fmt.Sprintf("%s#assert:%s#%s#%s", ex.name, c.pat, ordName, lbl), t, x.Pos(), c.Src)
 		}
